@@ -543,13 +543,17 @@ func vClassifyErr(e any) string {
 
 func vClassifyLog(l any) string {
 	s := strings.ToLower(fmt.Sprint(l))
+	// the keyword that comes FIRST decides ("Snapshot updated (2 lines added)" is an update)
+	best, bestAt := "", len(s)+1
+	for _, k := range []string{"added", "updated", "skipped"} {
+		if at := strings.Index(s, k); at >= 0 && at < bestAt {
+			best, bestAt = k, at
+		}
+	}
+	if best != "" {
+		return best
+	}
 	switch {
-	case strings.Contains(s, "added"):
-		return "added"
-	case strings.Contains(s, "updated"):
-		return "updated"
-	case strings.Contains(s, "skipped"):
-		return "skipped"
 	case strings.Contains(s, "[warning]"):
 		return "warning"
 	}
